@@ -239,6 +239,20 @@ def check_case(case, acc):
             pos3, rot3 = H.transform(position=p, rotation=list(q))
             if not close(pos3, pos2) or not same_rot(rot3, rot2.rotation_matrix):
                 bad("transform:keyword-form", "keyword / list-rotation call differs from the positional call")
+        # positions given as arrays of another dtype (integer grid coordinates, float32): the result is the real-valued matrix product,
+        # and the caller's array is left as it was
+        for arr in (np.array([3, -2, 1]), np.array([0, 0, 0], dtype=np.int32), np.array([1.5, -2.25, 0.5], dtype=np.float32), [3, -2, 1], (7, 0, -4)):
+            keep = np.array(arr, copy=True) if isinstance(arr, np.ndarray) else None
+            want_i = M @ np.array([float(arr[0]), float(arr[1]), float(arr[2]), 1.0])
+            acc.exec(2)
+            got_i = H.transform(arr)
+            got_k = H.transform(position=arr)
+            tol_i = 1e-4 if (isinstance(arr, np.ndarray) and arr.dtype == np.float32) else 1e-9
+            if not close(np.asarray(got_i, dtype=float), want_i[:3], tol_i) or not close(np.asarray(got_k, dtype=float), want_i[:3], tol_i):
+                bad("transform:position-dtype", "position %r (%s): transformed to %s, the matrix product gives %s" % (
+                    arr, getattr(arr, "dtype", type(arr).__name__), np.asarray(got_i), want_i[:3]))
+            if keep is not None and not np.array_equal(arr, keep):
+                bad("transform:caller-array-modified", "the caller's position array %s was changed to %s" % (keep, arr))
         # a transform built from the caller's arrays keeps its meaning when the caller reuses those buffers afterwards: forward and
         # inverse must stay consistent with each other
         ai, gi, ti = case["entry"]
